@@ -161,11 +161,5 @@ def drv : PropDrv Input Trace :=
   { decI := input?, decT := trace?, encT := ofTrace, model := model, clauses := Spec.C06.clauses,
     classes := Spec.C06.classes }
 
-/-- Inside a known-finding class the model exhibits the defect, so the spec is *expected* to fail on
-the model's own trace there (DESIGN.md 2.6); harness/check.py treats any such failure as a framework
-inconsistency, hence the third component of the reply is reported as `ok` for class inputs. -/
-def handle (args : List Sexp) : Sexp :=
-  match drv.handle args with
-  | .list [mt, si, _, .list (c :: cs)] => .list [mt, si, .atom "ok", .list (c :: cs)]
-  | r => r
+def handle : List Sexp → Sexp := drv.handle
 end TTV.Drv.C06
